@@ -100,69 +100,152 @@ func run(k *kase) string {
 	return fmt.Sprintf("%s|%d|%s|%s", d.String(), uint32(r), e, aux)
 }
 
+// mkOperands builds the operand population. It is deterministic in r, so that calling it twice with
+// equal generators gives twin populations: one is SHARED by the goroutines and is not touched by
+// anything before they start (a first read-only use that writes to its operand is then seen by the
+// race detector), the other gives the sequential baseline.
+func mkOperands(r *rand.Rand) []*apd.Decimal {
+	var ops []*apd.Decimal
+	digitsStr := func(digits int) string {
+		s := string(rune('1' + r.Intn(9)))
+		for j := 1; j < digits; j++ {
+			s += string(rune('0' + r.Intn(10)))
+		}
+		return s
+	}
+	big := apd.BaseContext.WithPrecision(200)
+	for i := 0; i < 48; i++ {
+		d := new(apd.Decimal)
+		digits := 1 + r.Intn(18)
+		switch i % 8 {
+		case 0, 3:
+			digits = 30 + r.Intn(60) // beyond the 128-bit inline array
+			d.SetString(digitsStr(digits))
+		case 1:
+			digits = 20 + r.Intn(18) // inline, two words
+			d.SetString(digitsStr(digits))
+		case 2:
+			// heap-backed coefficient holding a small value: a large destination shrunk in place
+			l := digitsStr(40 + r.Intn(30))
+			d.SetString(l)
+			var y apd.Decimal
+			y.SetString(l)
+			var k apd.Decimal
+			k.SetInt64(int64(1 + r.Intn(1000)))
+			big.Sub(&y, &y, &k)
+			big.Sub(d, d, &y)
+		case 4:
+			// large destination reduced by an in-place integer division / remainder
+			l := digitsStr(40 + r.Intn(30))
+			d.SetString(l)
+			var y apd.Decimal
+			y.SetString(digitsStr(38))
+			if r.Intn(2) == 0 {
+				big.QuoInteger(d, d, &y)
+			} else {
+				big.Rem(d, d, &y)
+			}
+		case 5:
+			// small destination grown in place
+			d.SetInt64(int64(1 + r.Intn(1 << 30)))
+			var y apd.Decimal
+			y.SetString(digitsStr(25 + r.Intn(30)))
+			big.Mul(d, d, &y)
+		case 6:
+			// a copy (Set) of a heap-backed value, and of a shrunk one
+			var src apd.Decimal
+			src.SetString(digitsStr(45))
+			if r.Intn(2) == 0 {
+				var y apd.Decimal
+				y.Set(&src)
+				y.Coeff.Sub(&y.Coeff, apd.NewBigInt(int64(1+r.Intn(99))))
+				src.Coeff.Sub(&src.Coeff, &y.Coeff)
+			}
+			d.Set(&src)
+		default:
+			d.SetString(digitsStr(digits))
+		}
+		d.Exponent = int32(r.Intn(21) - 10 - digits/2)
+		d.Negative = r.Intn(4) == 0
+		ops = append(ops, d)
+	}
+	ops = append(ops, apd.New(0, 0), apd.New(1, 0), apd.New(10, -1), &apd.Decimal{Form: apd.Infinite}, &apd.Decimal{Form: apd.NaN})
+	return ops
+}
+
+func mkContexts(r *rand.Rand) []*apd.Context {
+	modes := []apd.Rounder{apd.RoundDown, apd.RoundHalfUp, apd.RoundHalfEven, apd.RoundCeiling, apd.RoundFloor, apd.RoundHalfDown, apd.RoundUp, apd.Round05Up}
+	var ctxs []*apd.Context
+	for i := 0; i < 6; i++ {
+		ctxs = append(ctxs, &apd.Context{Precision: uint32(1 + r.Intn(30)), MaxExponent: 6144, MinExponent: -6143, Rounding: modes[r.Intn(8)]})
+	}
+	ctxs = append(ctxs, apd.BaseContext.WithPrecision(20), apd.BaseContext.WithPrecision(0), apd.BaseContext.WithPrecision(1))
+	return ctxs
+}
+
 func main() {
 	n := flag.Int("n", 400, "number of shared cases")
 	seed := flag.Int64("seed", 1, "seed")
 	gor := flag.Int("goroutines", 16, "goroutines")
 	flag.Parse()
-	r := rand.New(rand.NewSource(*seed))
-	modes := []apd.Rounder{apd.RoundDown, apd.RoundHalfUp, apd.RoundHalfEven, apd.RoundCeiling, apd.RoundFloor, apd.RoundHalfDown, apd.RoundUp, apd.Round05Up}
-	// a handful of SHARED contexts (incl. BaseContext-derived) and operands (inline and heap coefficients)
-	var ctxs []*apd.Context
-	for i := 0; i < 6; i++ {
-		ctxs = append(ctxs, &apd.Context{Precision: uint32(1 + r.Intn(30)), MaxExponent: 6144, MinExponent: -6143, Rounding: modes[r.Intn(8)]})
-	}
-	ctxs = append(ctxs, apd.BaseContext.WithPrecision(20))
-	var ops []*apd.Decimal
-	for i := 0; i < 40; i++ {
-		d := new(apd.Decimal)
-		digits := 1 + r.Intn(18)
-		if i%3 == 0 {
-			digits = 30 + r.Intn(60) // beyond the 128-bit inline array
-		}
-		s := ""
-		for j := 0; j < digits; j++ {
-			s += string(rune('0' + r.Intn(10)))
-		}
-		d.SetString(s)
-		d.Exponent = int32(r.Intn(21) - 10 - digits/2)
-		d.Negative = r.Intn(4) == 0
-		ops = append(ops, d)
-	}
-	ops = append(ops, apd.New(0, 0), apd.New(1, 0), &apd.Decimal{Form: apd.Infinite}, &apd.Decimal{Form: apd.NaN})
-	cases := make([]*kase, *n)
-	for i := range cases {
-		k := &kase{op: r.Intn(len(opNames)), c: ctxs[r.Intn(len(ctxs))], x: ops[r.Intn(len(ops))], y: ops[r.Intn(len(ops))], exp: int32(r.Intn(9) - 4)}
-		cases[i] = k
-		k.want = run(k) // sequential baseline
-	}
-	diffs := make([]int, *n)
-	var mu sync.Mutex
-	var wg sync.WaitGroup
-	for g := 0; g < *gor; g++ {
-		wg.Add(1)
-		go func(g int) {
-			defer wg.Done()
-			rr := rand.New(rand.NewSource(*seed + int64(g)*7919))
-			for rep := 0; rep < 3; rep++ {
-				for _, i := range rr.Perm(*n) {
-					if got := run(cases[i]); got != cases[i].want {
-						mu.Lock()
-						diffs[i]++
-						mu.Unlock()
-					}
-				}
-			}
-		}(g)
-	}
-	wg.Wait()
 	w := bufio.NewWriter(os.Stdout)
 	defer w.Flush()
-	for i, k := range cases {
-		st := "same"
-		if diffs[i] > 0 {
-			st = "differs"
+	// several rounds, each over a FRESH shared population: the first use of an operand happens inside
+	// the goroutines
+	const perRound = 100
+	id := 0
+	for round := 0; id < *n; round++ {
+		rs := *seed*1000003 + int64(round)
+		shared, twins := mkOperands(rand.New(rand.NewSource(rs))), mkOperands(rand.New(rand.NewSource(rs)))
+		sctx, tctx := mkContexts(rand.New(rand.NewSource(rs+1))), mkContexts(rand.New(rand.NewSource(rs+1)))
+		r := rand.New(rand.NewSource(rs + 2))
+		m := perRound
+		if *n-id < m {
+			m = *n - id
 		}
-		fmt.Fprintf(w, "%d conc %s %d %s %s => %s\n", i+1, opNames[k.op], k.c.Precision, k.x.String(), k.y.String(), st)
+		cases := make([]*kase, m)
+		base := make([]*kase, m)
+		for i := range cases {
+			op, ci, xi, yi, e := r.Intn(len(opNames)), r.Intn(len(sctx)), r.Intn(len(shared)), r.Intn(len(shared)), int32(r.Intn(9)-4)
+			cases[i] = &kase{op: op, c: sctx[ci], x: shared[xi], y: shared[yi], exp: e}
+			base[i] = &kase{op: op, c: tctx[ci], x: twins[xi], y: twins[yi], exp: e}
+		}
+		got := make([][]string, *gor)
+		start := make(chan struct{})
+		var wg sync.WaitGroup
+		for g := 0; g < *gor; g++ {
+			wg.Add(1)
+			go func(g int) {
+				defer wg.Done()
+				rr := rand.New(rand.NewSource(rs + int64(g)*7919))
+				res := make([]string, m)
+				<-start
+				for rep := 0; rep < 2; rep++ {
+					for _, i := range rr.Perm(m) {
+						s := run(cases[i])
+						if rep == 0 || res[i] == s {
+							res[i] = s
+						} else {
+							res[i] = "UNSTABLE " + res[i] + " / " + s
+						}
+					}
+				}
+				got[g] = res
+			}(g)
+		}
+		close(start)
+		wg.Wait()
+		// sequential baseline, on the twin population (never shared)
+		for i, k := range base {
+			want := run(k)
+			st := "same"
+			for g := 0; g < *gor; g++ {
+				if got[g][i] != want {
+					st = "differs"
+				}
+			}
+			id++
+			fmt.Fprintf(w, "%d conc %s %d %s %s => %s\n", id, opNames[k.op], k.c.Precision, k.x.String(), k.y.String(), st)
+		}
 	}
 }
